@@ -345,3 +345,10 @@ def validate_trace_parallel(module, cfg, records, name, jobs=12, chunk=None, **k
   consumed = sum(r[0] for r in results)
   fails = [f for r in results for f in r[1]]
   return consumed, fails, [r[2] for r in results]
+
+
+def run_many(jobs, workers_each=5, **kw):
+  """Runs several TLC jobs [(module, cfg)] concurrently; returns the TlcResults in order."""
+  from concurrent.futures import ThreadPoolExecutor
+  with ThreadPoolExecutor(max_workers=len(jobs)) as ex:
+    return list(ex.map(lambda mc_: run(mc_[0], mc_[1], workers=workers_each, **kw), jobs))
